@@ -708,6 +708,23 @@ class Evaluator:
             return r if short.endswith("eq") else int(not r)
         if short in ("core::convert::From::from", "core::convert::Into::into", "core::clone::Clone::clone", "core::borrow::Borrow::borrow"):
             return self.deref_val(args[0]) if short.endswith("clone") else args[0]
+        if short.startswith("core::num::<impl u8>::") and short.split("::")[-1].startswith(("is_ascii", "to_ascii", "eq_ignore_ascii")) and args:
+            vals = [self.deref_val(a) if isinstance(a, (Ref, ElemRef)) else a for a in args]
+            if all(isinstance(v, int) and not isinstance(v, bool) and 0 <= v <= 255 for v in vals):
+                ch = chr(vals[0]) if vals[0] < 128 else ""
+                import string as _st
+                m_ = short.split("::")[-1]
+                preds = {"is_ascii": vals[0] < 128, "is_ascii_alphabetic": bool(ch) and ch in _st.ascii_letters, "is_ascii_digit": bool(ch) and ch in _st.digits,
+                         "is_ascii_alphanumeric": bool(ch) and ch in _st.ascii_letters + _st.digits, "is_ascii_uppercase": bool(ch) and ch in _st.ascii_uppercase,
+                         "is_ascii_lowercase": bool(ch) and ch in _st.ascii_lowercase, "is_ascii_hexdigit": bool(ch) and ch in _st.hexdigits,
+                         "is_ascii_punctuation": bool(ch) and ch in _st.punctuation, "is_ascii_graphic": 33 <= vals[0] <= 126,
+                         "is_ascii_whitespace": vals[0] in (32, 9, 10, 12, 13), "is_ascii_control": vals[0] < 32 or vals[0] == 127}
+                if m_ in preds:
+                    return int(preds[m_])
+                if m_ == "to_ascii_lowercase":
+                    return vals[0] + 32 if 65 <= vals[0] <= 90 else vals[0]
+                if m_ == "to_ascii_uppercase":
+                    return vals[0] - 32 if 97 <= vals[0] <= 122 else vals[0]
         if short.startswith("core::num::<impl ") and all(isinstance(a, int) for a in args):
             ity = short[len("core::num::<impl "):].split(">")[0]
             meth = short.split("::")[-1]
